@@ -13,7 +13,11 @@ MCSrcsFull  == MCSrcsSmall \cup
                  [src |-> "H.COM/a", key |-> "h.com/a"],
                  [src |-> "h.com/A", key |-> "h.com/A"],
                  [src |-> ":1234",   key |-> ":1234"] }
+MCSrcsMid   == MCSrcsSmall \cup
+               { [src |-> "h.com/a", key |-> "h.com/a"],
+                 [src |-> ":1234",   key |-> ":1234"] }
 MCW == { QZero, Q(1, 5), Q(1, 2) }
+MCWFull == MCW \cup { Q(-1, 2) }    \* a negative weight is a legal spelling of "dynamic"
 MCTagSeqs == { <<>>, <<"t1">>, <<"t1", "t2">> }
 MCOptsSmall == { "" }
 MCOptsFull  == { "", "strip=/x" }
